@@ -1,8 +1,8 @@
 package verifsim
 
 import (
-	"fmt"
 	"errors"
+	"fmt"
 	"io"
 	"net"
 	"syscall"
@@ -43,10 +43,12 @@ type Link struct {
 	CoalescePm int
 	LatPm      int
 	LatMax     time.Duration
-	BytesPerMs int // 0 = unlimited
-	PipeCap    int  // with Serial: bytes that may wait in front of the line before the writer blocks (0: unbounded)
-	Blocked    int  // writes that had to wait for room in the pipe
-	Serial     bool // with BytesPerMs: writes queue up behind each other (a line of that capacity) instead of each being delayed by its own size only
+	BytesPerMs int                    // 0 = unlimited
+	LonePm     int                    // with SegPm: per mille of cut writes in which one byte from the middle arrives in a read of its own
+	LoneByte   int                    // with LonePm: prefer this byte value (-1: any)
+	PipeCap    int                    // with Serial: bytes that may wait in front of the line before the writer blocks (0: unbounded)
+	Blocked    int                    // writes that had to wait for room in the pipe
+	Serial     bool                   // with BytesPerMs: writes queue up behind each other (a line of that capacity) instead of each being delayed by its own size only
 	Atomic     func(data []byte) bool // chunks for which this holds are never cut (e.g. a trigger line: detectors work per read)
 	SealAtomic bool                   // atomic chunks are also never merged with their neighbours
 
@@ -55,7 +57,7 @@ type Link struct {
 	StallUntil time.Duration
 	// WriteBlockUntil: writes block (the writer sleeps) until this simulated time
 	WriteBlockUntil time.Duration
-	Discard    bool
+	Discard         bool
 
 	// record
 	Record    bool
@@ -73,7 +75,7 @@ type Link struct {
 }
 
 func (w *World) NewLink(name string) *Link {
-	l := &Link{W: w, Name: name, wake: make(chan struct{}), Record: true, MaxCuts: 3}
+	l := &Link{W: w, Name: name, wake: make(chan struct{}), Record: true, MaxCuts: 3, LoneByte: -1}
 	w.mu.Lock()
 	w.links = append(w.links, l)
 	w.mu.Unlock()
@@ -211,6 +213,20 @@ func (l *Link) Write(p []byte) (int, error) {
 	cuts := 0
 	if l.SegPm > 0 && len(data) > 1 && !atomic {
 		cuts = w.Tape.Rare("cuts", l.MaxCuts+1, l.SegPm)
+	}
+	if cuts > 0 && l.LonePm > 0 && len(data) > 2 && w.Tape.Bool("cutlone", l.LonePm) {
+		// one byte somewhere in the middle arrives in a read of its own
+		p := 1 + w.Tape.Draw("cutlonepos", len(data)-2)
+		if l.LoneByte >= 0 {
+			// ... preferably a particular byte value, if the write contains it
+			if idxs := indexAll(data[1:len(data)-1], byte(l.LoneByte)); len(idxs) > 0 {
+				p = 1 + idxs[w.Tape.Draw("cutlonewhich", len(idxs))]
+			}
+		}
+		l.segs = append(l.segs, &seg{data: data[:p:p], at: at}, &seg{data: data[p : p+1 : p+1], at: at})
+		data = data[p+1:]
+		l.Cuts += 2
+		cuts--
 	}
 	for cuts > 0 && len(data) > 1 {
 		// bias towards tiny first segments now and then
@@ -385,11 +401,11 @@ func (l *Link) Snapshot() (sent, deliv []byte, ev []LinkEvent) {
 // in-memory TCP
 
 type Listener struct {
-	w      *World
-	port   int
-	q      chan *Conn
-	closed chan struct{}
-	isDone bool
+	w        *World
+	port     int
+	q        chan *Conn
+	closed   chan struct{}
+	isDone   bool
 	Accepted int
 	Owner    *Proc
 }
@@ -593,4 +609,17 @@ func (w *World) DialHost(host *Proc, port int, name string, cfg func(l *Link)) *
 	default:
 		return nil
 	}
+}
+
+func indexAll(b []byte, c byte) []int {
+	var out []int
+	for i, x := range b {
+		if x == c {
+			out = append(out, i)
+			if len(out) >= 64 {
+				break
+			}
+		}
+	}
+	return out
 }
